@@ -349,13 +349,36 @@ def make_override_variants(rnd, mod, L0, evm):
         ov, en = build(slots, lock_slot, wrong_type=p)
         out.append(("wrong-type", ov, en, lock_slot if need_lock else None, False))
     if len(paths) >= 2:
+        # every way two ranges can meet, in both declaration orders: b starts inside a, b ends inside a, same start,
+        # b strictly encloses a, b strictly inside a, identical
+        pairs = []
+        for _ in range(2):
+            a, b = rnd.sample(paths, 2)
+            pairs += [(a, b), (b, a)]
+        big_small = [(x, y) for x in paths for y in paths if x != y and sizes[x] >= sizes[y] + 2]
+        if big_small:
+            x, y = rnd.choice(big_small)
+            pairs += [(x, y), (y, x)]          # (enclosing, enclosed) and the reverse role assignment
+        for a, b in pairs:
+            slots, lock_slot = disjoint_placement()
+            base = slots[a] + 2**40            # keep clear of the other variables
+            rel = []
+            rel.append(("start-inside", base + rnd.choice(sorted({0, sizes[a] - 1, sizes[a] // 2}))))
+            rel.append(("end-inside", base - sizes[b] + 1 + rnd.choice(sorted({0, min(sizes[a], sizes[b]) - 1}))))
+            if sizes[b] >= sizes[a] + 2:
+                rel.append(("b-encloses-a", base - rnd.randint(1, sizes[b] - sizes[a] - 1)))
+            if sizes[a] >= sizes[b] + 2:
+                rel.append(("b-inside-a", base + rnd.randint(1, sizes[a] - sizes[b] - 1)))
+            for name, sb in rel:
+                if sb < 0:
+                    continue
+                s2 = dict(slots)
+                s2[a] = base
+                s2[b] = sb
+                ov, en = build(s2, lock_slot)
+                out.append(("collision:" + name, ov, en, lock_slot if need_lock else None, True))
         slots, lock_slot = disjoint_placement()
         a, b = rnd.sample(paths, 2)
-        s2 = dict(slots)
-        # make b overlap a: start inside a, or end inside a
-        s2[b] = s2[a] + rnd.choice([0, sizes[a] - 1]) if rnd.random() < 0.6 else max(0, s2[a] - sizes[b] + 1)
-        ov, en = build(s2, lock_slot)
-        out.append(("collision", ov, en, lock_slot if need_lock else None, True))
         # adjacent (touching, not overlapping)
         s3 = dict(slots)
         s3[b] = s3[a] + sizes[a]
@@ -386,6 +409,11 @@ def part_override(ctx, model_ok, n, huge_ok):
     cases = gen_cases(ctx, n, "ovcases", override_friendly=True)
     if huge_ok:
         cases += gen_cases(ctx, max(3, n // 4), "ovcases-big", override_friendly=False)
+    w_, arr_ = T("word", name="uint256"), T("sarr", t=T("word", name="uint256"), n=10)
+    cases += [Module("top", [Var("a", "storage", w_), Var("b", "storage", arr_)], False),
+              Module("top", [Var("b", "storage", arr_), Var("a", "storage", w_)], True),
+              Module("top", [Var("a", "storage", w_), Module("libx", [Var("b", "storage", arr_), Var("c", "storage", w_)], False)], False),
+              Module("top", [Module("libx", [Var("b", "storage", arr_)], True), Var("a", "storage", w_)], False)]
     jobs = []
     for mod in cases:
         has_tr = any(v.loc == "transient" for _, v in mod.flat())
